@@ -49,7 +49,7 @@ LEAF_OPS = [
 opspecs.op('starmap_safe', lambda c: __import__('rxsci').ops.map(lambda i: (i, i)), lambda: opspecs.M.Map(lambda i: (i, i)))
 opspecs.FUNCS.setdefault('exc_to_int', lambda e: -1)
 
-HO = ['group_by', 'roll11', 'roll21', 'roll22', 'roll32', 'roll23', 'roll31', 'split', 'ts_inc', 'ts_exc']
+HO = ['group_by', 'roll11', 'roll21', 'roll22', 'roll32', 'roll23', 'roll31', 'roll52', 'roll43', 'split', 'ts_inc', 'ts_exc']
 TEES = [('tee_zip', 'zip'), ('tee_merge', 'merge'), ('tee_cl', 'combine_latest')]
 LEAVES_B = [[['identity']], [['filter', 'even']], [['to_list']], [['last']], [['count', True]], [['take', 1]],
             [['map', 'dup'], ['flat_map']], [['batch', 2]]]
